@@ -67,6 +67,7 @@ THEOREMS = [
     "JanetModel.Props.C08.refcount_counterexample",
     "JanetModel.Props.C08.refcount_leak_counterexample",
     "JanetModel.Props.C08.shared_never_stranded",
+    "JanetModel.Props.C08.shared_released_after_drops_and_discards",
     "JanetModel.Props.C08.stranded_counterexample",
     "JanetModel.Props.C08.deinit_leak_counterexample",
     "JanetModel.Props.C08.lock_paths_release_exactly_once",
